@@ -9,6 +9,7 @@ import HtpModel.Lemmas.Owed
 import HtpModel.Lemmas.OwedOut
 import HtpModel.Pinned.Eq
 import HtpModel.Lemmas.History
+import HtpModel.Lemmas.HistorySticky
 
 namespace Htp.C09
 open Htp.Conn Htp.Gen
@@ -285,6 +286,34 @@ example :
     (reqData {} (some (b!"GET /")) 5 (runCalls {} {} [.open])).2 = STREAM_DATA ∧
     (resData {} (some (b!"HTTP/1.1 2")) 10 (runCalls {} {} [.open, .req (b!"GET /")])).2 = STREAM_DATA ∧
     (runCalls {} {} calls).inn.read = 5 ∧ (runCalls {} {} calls).out.read = 10 := by decide
+
+/-- **C09 (sticky ERROR over whole histories: forall interleavings)**: once a direction's status is STREAM_ERROR it stays so through ANY list of
+    later calls - data chunks of either direction, htp_connp_close, htp_connp_req_close, htp_connp_open, htp_connp_tx_freed, any configuration
+    and callback policy (`Lemmas/HistorySticky.lean`: every write of `in_status` on the response side - refused CONNECT, 101, tunnel switch - and
+    of `out_status` on the request side - the DATA_OTHER wake-up, the CONNECT probe - is guarded so that ERROR survives; close only overwrites
+    a status that is not ERROR). -/
+theorem C09_history_error_absorbing (cfg : Cfg) (c0 : Conn) (calls : List Call) :
+    (c0.inn.status = STREAM_ERROR → (runCalls cfg c0 calls).inn.status = STREAM_ERROR) ∧
+    (c0.out.status = STREAM_ERROR → (runCalls cfg c0 calls).out.status = STREAM_ERROR) :=
+  ⟨history_error_sticky_req cfg c0 calls, history_error_sticky_res cfg c0 calls⟩
+
+/-- **C09 (the clause in its own words)**: if, after any history `pre`, a request data call returns HTP_STREAM_ERROR, then after ANY further calls
+    `mid` of either direction a later request data call returns HTP_STREAM_ERROR and runs no callback (event log and callback counter
+    unchanged) - and the same for the response direction. The hypothesis `unsupported = false` excludes the one path of the MODEL that returns
+    ERROR without recording it: its driver loop's fuel counter running out, which has no counterpart in the C (`for (;;)`). -/
+theorem C09_history_error_then_error (cfg : Cfg) (c0 : Conn) (pre mid : List Call) (d d' : Bytes) :
+    ((reqData cfg (some d) d.length (runCalls cfg c0 pre)).2 = STREAM_ERROR →
+     (reqData cfg (some d) d.length (runCalls cfg c0 pre)).1.unsupported = false →
+       let c1 := runCalls cfg c0 (pre ++ [.req d] ++ mid)
+       (reqData cfg (some d') d'.length c1).2 = STREAM_ERROR ∧ (reqData cfg (some d') d'.length c1).1.events = c1.events ∧
+       (reqData cfg (some d') d'.length c1).1.cbCount = c1.cbCount) ∧
+    ((resData cfg (some d) d.length (runCalls cfg c0 pre)).2 = STREAM_ERROR →
+     (resData cfg (some d) d.length (runCalls cfg c0 pre)).1.unsupported = false →
+       let c1 := runCalls cfg c0 (pre ++ [.res d] ++ mid)
+       (resData cfg (some d') d'.length c1).2 = STREAM_ERROR ∧ (resData cfg (some d') d'.length c1).1.events = c1.events ∧
+       (resData cfg (some d') d'.length c1).1.cbCount = c1.cbCount) :=
+  ⟨fun h1 h2 => history_error_then_error_req_chunk cfg c0 pre mid d d' h1 h2,
+   fun h1 h2 => history_error_then_error_res_chunk cfg c0 pre mid d d' h1 h2⟩
 
 /-- **C09 (the constants are the reviewed ones)**: every constant the translator reads from the current source - among them the stream state codes -
     equals its reviewed snapshot (lean/HtpModel/Pinned); the model follows a regenerated constant, so this is what notices a changed one -/
